@@ -24,7 +24,7 @@ ID = 'C08'
 LEVEL = 'model_checking'
 PRELOAD = ['frame.geometry.geometry', 'frame.netlist.netlist', 'frame.die.die', 'frame.allocation.allocation', 'ruamel.yaml', 'mc.common', 'tools.rect.rect', 'tools.rect.rect_io', 'mc.dpll']
 RULE = ("grids nx x ny (nx*ny <= 6 quick / <= 9 thorough) with column/row coordinates from 6 families (origin 0 integer, origin 1, fractional size, "
-        "non-uniform, decimal 0.1 steps, origin 0.5 with size 2.5), k in 1..3: the complete projected model set of the generated CNF vs the brute-force "
+        "non-uniform, decimal 0.1 steps, origin 0.5 with size 2.5, unit pitch at x=1234567, grids derived from decimal allocations), k in 1..3: the complete projected model set of the generated CNF vs the brute-force "
         "set of k-box single-trunk orthogons; occupancy vectors over {0, 0.3, 0.7, 1} x every cost bound: the real solve(). "
         "states = models enumerated (each is one admitted shape), transitions = (grid,k) formulas + solve() calls.")
 ASSUMPTIONS = ["the grid is a full rectangular grid of cells (the property's 'rectangular grid of cells')",
@@ -44,6 +44,9 @@ FAMS = {
     'NONUNI': lambda i: [0.0, 1.0, 1.5, 4.0, 4.25][i],
     'DEC1': lambda i: [0.0, 0.1, 0.2, 0.30000000000000004, 0.4][i],   # as an allocation with 0.1 steps yields them
     'HALFORG': lambda i: 0.5 + i * 0.75,
+    'FAR': lambda i: 1234567.0 + i,             # unit pitch far from the origin: lines agree in their first six digits
+    'FARDEC': lambda i: 2500000.25 + 0.5 * i,
+    'NEG': lambda i: -2.5 + i,                  # 'any origin': a grid lying (partly) at negative coordinates
 }
 
 
@@ -340,12 +343,13 @@ def shards(tier):
                 if nx * ny >= 9 and k == 3 and tier == 'quick':
                     continue
                 out.append(dict(kind='modelset', fam=fam, nx=nx, ny=ny, k=k))
-    for fam in ('ORG0', 'HALFORG', 'ORG1', 'FRAC'):
+    for fam in ('ORG0', 'HALFORG', 'ORG1', 'FRAC', 'FAR', 'NEG'):
         for first in OCC:
             for second in OCC:
                 out.append(dict(kind='solve22', fam=fam, first=first, second=second))
         out.append(dict(kind='solve31', fam=fam))
-        out.append(dict(kind='io', fam=fam))
+        if fam != 'NEG':        # allocation documents are restricted to the positive quadrant (library-wide precondition)
+            out.append(dict(kind='io', fam=fam))
     if tier == 'thorough':
         for fam in ('ORG0', 'HALFORG'):
             for first in OCC:
